@@ -56,11 +56,15 @@ class LibInterp(Interp):
             items = self.iterate(args[0], e) if len(args) == 1 else list(args)
             if any(isinstance(x, Sym) or x is None for x in items):
                 raise HostOrdering(e)
+        if name == 'callable' and args and isinstance(args[0], Sym) and args[0].kind == 'val' and len(args[0].args) > 2:
+            return args[0].args[2] == 'function'
         if name == 'isinstance' and args and isinstance(args[0], Sym) and args[0].kind == 'val' and len(args[0].args) > 2:
             from .atoms import CLASS_NAMES, INSTANCE_OF
             atom = args[0].args[2]
-            classes = [norm(x) for x in (e.args[1].elts if isinstance(e.args[1], ast.Tuple) else [e.args[1]])]
+            classes = self.class_names(e.args[1], args[1] if len(args) > 1 else None)
             for c in classes:
+                if c == 'object':
+                    return True
                 if c not in CLASS_NAMES:
                     raise Unrecognised(self.rule, f'isinstance class {c}', self.mod.rel)
                 if CLASS_NAMES[c] in INSTANCE_OF[atom]:
